@@ -544,7 +544,7 @@ func TestC01(t *testing.T) {
 	}
 	// racing histories: a handful, many trials each
 	racingRng := NewRand(Seed() ^ 0x726163696e67)
-	for i := 0; i < 4+n/150; i++ {
+	for i := 0; n >= 100 && i < 4+n/150; i++ { // none on a replay (n = 0)
 		hs = append(hs, genRacing(racingRng.Fork(), 200))
 	}
 	for k, yh := range hs {
